@@ -1,6 +1,8 @@
+import IsobarV.Tonal.Drv
 import IsobarV.Sched.Drv
 
 def main (args : List String) : IO UInt32 := do
   match args with
   | ["sched"] => IsobarV.Sched.Drv.main; return 0
+  | ["tonal"] => IsobarV.Tonal.Drv.main; return 0
   | _ => IO.eprintln s!"usage: driver <suite>; unknown: {args}"; return 2
